@@ -278,7 +278,12 @@ def _iparam_propertylist(property_list):
     if property_list is None:
         pass
     elif isinstance(property_list, (list, tuple)):
-        pass
+        for pname in property_list:
+            if not isinstance(pname, str):
+                raise TypeError(
+                    _format("The 'PropertyList' parameter of the "
+                            "WBEMConnection operation has an item of invalid "
+                            "type {0} (must be a string)", type(pname)))
     elif isinstance(property_list, str):
         property_list = [property_list]
     else:
